@@ -23,6 +23,7 @@ from collections.abc import Callable
 from pathlib import Path
 
 from src.core.constants import Language
+from src.linter_config.directive_markers import source_lines
 from src.linters.lazy_ignores.directive_utils import (
     create_directive_no_rules,
     normalize_path,
@@ -99,7 +100,7 @@ def _get_python_scannable_lines(code: str) -> list[tuple[int, str]]:
     quotes = ['"""', "'''"]
     scannable: list[tuple[int, str]] = []
 
-    for line_num, line in enumerate(code.splitlines(), start=1):
+    for line_num, line in enumerate(source_lines(code), start=1):
         was_in_docstring = in_docstring[0] or in_docstring[1]
         _update_docstring_state(line, quotes, in_docstring)
         if not was_in_docstring:
@@ -190,7 +191,7 @@ class TestSkipDetector:
             List of (line_number, line_text) tuples for scannable lines
         """
         if lang != Language.PYTHON:
-            return list(enumerate(code.splitlines(), start=1))
+            return list(enumerate(source_lines(code), start=1))
         return _get_python_scannable_lines(code)
 
     def _get_line_scanner(
